@@ -24,6 +24,12 @@ def variants(c):
         ("wrong checksum, non-default algorithm", wrong("blake2b"), "blake2b", n, False),
         ("wrong size", h("sha256"), "SHA-256", n + 1, False),
         ("wrong size and checksum", wrong("sha256"), "SHA-256", n + 1, False),
+        # the one-call form may also be given an additional algorithm: the same text as the checksum algorithm, the
+        # store's own algorithm in its hashlib spelling, another one
+        ("wrong checksum, additional algorithm = checksum algorithm = store algorithm", wrong("sha256"), "sha256", n, False, "sha256"),
+        ("wrong checksum, additional algorithm = checksum algorithm", wrong("sha224"), "sha224", n, False, "sha224"),
+        ("correct, additional algorithm = checksum algorithm = store algorithm", h("sha256"), "sha256", n, True, "sha256"),
+        ("wrong checksum, other additional algorithm", wrong("md5"), "md5", None, False, "sha3_256"),
     ]
 
 
@@ -32,7 +38,8 @@ def both(ps, w):
     k = ps.choose(KV, 0, w.NK)
     vs = variants(w.contents[k])
     vn = ps.choose(VARV, 0, len(vs))
-    name, ck, algo, size, valid = vs[vn]
+    name, ck, algo, size, valid = vs[vn][:5]
+    addl = vs[vn][5] if len(vs[vn]) > 5 else None
     pid = w.pids[i]
     bad = []
 
@@ -48,7 +55,7 @@ def both(ps, w):
     w.build(ps)
     pre = w.pre()
     sA = w.store()
-    rA, vA = outcome(lambda: sA.store_object(pid, w.src(k), None, ck, algo, size))
+    rA, vA = outcome(lambda: sA.store_object(pid, w.src(k), addl, ck, algo, size))
     postA = w.post()
     # ---- B: in steps, on a second copy of the same symbolic state
     w.build(ps)
